@@ -44,10 +44,18 @@ class Integrand:
         self.ctx = ctx
         self.maxabs = 0.0
         self.n = 0
+        self.companions = None
 
     def __call__(self, P):
+        # hostile batch composition: every integrand batch is evaluated together with a few companion
+        # observers far from and close to the sources (their values are discarded); a vectorised routine
+        # whose result for one row depends on the other rows of the call shows up in the integral
+        n0 = len(P)
+        if self.companions is not None and n0:
+            P = np.concatenate([P, self.companions])
         with quiet(), np.errstate(all="ignore"):
-            v = np.asarray(self.get(self.srcs, P, sumup=True, squeeze=False))[0, 0, 0].reshape(-1, 3)
+            v = np.asarray(self.get(self.srcs, P, sumup=True, squeeze=False))[0, 0, 0].reshape(-1, 3)[:n0]
+        P = P[:n0]
         self.n += len(P)
         if v.size:
             m = np.nanmax(np.linalg.norm(np.nan_to_num(v), axis=1))
@@ -178,8 +186,12 @@ def check_case(ctx, case):
             srcs = [objs.build(x) for x in specs]
         rot = R.from_quat(objs.rand_rot(rng, 1, "uniform")[0])
         expected = 0.0
+        comp_dirs = np.random.default_rng(case["seed"] + 1).normal(size=(6, 3))
+        comp_dirs /= np.linalg.norm(comp_dirs, axis=1)[:, None]
+        companions = p0 + comp_dirs * size * np.array([100.0, 300.0, 30.0, 0.7, 1.3, 2.0])[:, None]
         if kind.startswith("flux"):
             f = Integrand(ctx, srcs, "B")
+            f.companions = companions
             if kind == "flux_free":
                 d = rng.normal(size=3)
                 d /= np.linalg.norm(d)
@@ -214,6 +226,7 @@ def check_case(ctx, case):
             scale = f.maxabs * area
         else:
             f = Integrand(ctx, srcs, "H")
+            f.companions = companions
             if kind in ("circ_link", "circ_nolink"):
                 I = s["current"]
                 if s["cls"] == "Circle":
